@@ -4,10 +4,13 @@ import json, os, re, shutil, subprocess, sys, time, random, hashlib, glob
 
 VERIF = os.path.dirname(os.path.dirname(os.path.abspath(__file__)))
 SPEC = os.path.join(VERIF, "spec")
-HARNESS = os.path.join(VERIF, "harness")
-WORK = os.path.join(VERIF, ".work")
-EVID = os.path.join(VERIF, "evidence")
-REPO = "/repo"
+# The registered checks always use /verif/harness (replace => /repo), /verif/.work and
+# /verif/evidence.  The overrides exist only for tools/seedtest.sh, which runs the same checks
+# against a scratch worktree carrying a seeded defect without touching /repo or the evidence.
+HARNESS = os.environ.get("VERIF_HARNESS_DIR", os.path.join(VERIF, "harness"))
+WORK = os.environ.get("VERIF_WORK_ROOT", os.path.join(VERIF, ".work"))
+EVID = os.environ.get("VERIF_EVIDENCE_DIR", os.path.join(VERIF, "evidence"))
+REPO = os.environ.get("VERIF_REPO_DIR", "/repo")
 
 GOENV = {
     "GOFLAGS": "-mod=mod", "GOPROXY": "off", "GOSUMDB": "off", "GOTOOLCHAIN": "local",
